@@ -51,7 +51,12 @@ def run(res, tier, seed):
             if is_var(a):
                 res.count("assumed_to_constant"); continue
             before = canon(a)
-            r = a.reduce()
+            try:
+                r = a.reduce()
+            except Exception as e:
+                res.violation("oracle", f"reduce() of {a!r} raised {type(e).__name__}: {str(e)[:160]}",
+                              {"op": "reduce", "model": ast_json(ast), "d": None if d is None else {k: list(v) for k, v in d.items()}, "env": {}, "problem": f"reduce() raised {type(e).__name__}"})
+                continue
             if canon(a) != before:
                 res.violation("oracle", f"reduce() changed its receiver: {before} -> {canon(a)}", {"op": "reduce-mutates", "model": ast_json(ast), "d": d})
             res.count("reduced_to_variable" if is_var(r) else "reduced_to_model")
@@ -112,7 +117,11 @@ def replay(payload):
         a.assume({k: v for k, v in r0["fix"].items()})
     if r0.get("d"):
         a = a.assume({k: tuple(v) for k, v in r0["d"].items()})
-    r = a.reduce()
+    try:
+        r = a.reduce()
+    except Exception as e:
+        print("model", canon(a), "reduce() raised", type(e).__name__, e)
+        return 1
     class R: evaluations = 0
     if r0.get("env"):
         want = a.evaluate(dict(r0["env"])).as_tuple(); got = r.evaluate(dict(r0["env"])).as_tuple()
